@@ -99,6 +99,7 @@ func TestVerifC04(t *testing.T) {
 }
 
 type c04Case struct {
+	nviol int
 	quirk string // the rarely used value class actually present in the message, if any
 	rec   *vlib.Rec
 	idx   int
@@ -142,6 +143,7 @@ func (c *c04Case) viol(key, what string, extra map[string]any) {
 			}
 		}
 	}
+	c.nviol++
 	c.rec.Violation(key, what, c.wit(extra))
 }
 
@@ -154,7 +156,13 @@ func c04GeneratedCase(rec *vlib.Rec, r *rand.Rand, idx int) {
 	if vgenChance(r, 3) {
 		quirk = vgenQuirks[r.IntN(len(vgenQuirks))]
 	}
-	if rec.Guard("c04:generate", func() any { return c.wit(nil) }, func() { msg, meta = vgenMessage(r, o, quirk, false) }) || msg == nil {
+	// the message has its own PRNG so that an equal value can be constructed afresh at any time
+	s1, s2 := r.Uint64(), r.Uint64()
+	gen := func() *BGPMessage {
+		m, _ := vgenMessage(rand.New(rand.NewPCG(s1, s2)), o, quirk, false)
+		return m
+	}
+	if rec.Guard("c04:generate", func() any { return c.wit(nil) }, func() { msg, meta = vgenMessage(rand.New(rand.NewPCG(s1, s2)), o, quirk, false) }) || msg == nil {
 		return
 	}
 	c.kind = meta.Kind
@@ -261,6 +269,11 @@ func c04GeneratedCase(rec *vlib.Rec, r *rand.Rand, idx int) {
 	}
 	// (2) element level
 	c04Elements(c, msg)
+
+	// (6) values are stateful objects: cached lengths must never leak into what is emitted
+	if parsed && c.nviol == 0 {
+		c04Stateful(c, r, msg, m2, gen, b)
+	}
 
 	if parsed && (len(meta.AttrTypes)+len(meta.Families)+len(meta.Caps) > 0) {
 		rec.Nontrivial(meta.TypeSet() + "|" + o.Key + "|" + c04LenBucket(len(b)))
